@@ -147,7 +147,13 @@ class Arm:
         return hid in self.binding_hids()
 
     def callees(self):
-        return [c for _n, c in ((x, callee(x)) for x in walk(self.body)) if c]
+        out = [c for _n, c in ((x, callee(x)) for x in walk(self.body)) if c]
+        # a function named as a value (`Constant::add` handed on as a fn pointer) is the arm's choice of that function just as a
+        # call of it is
+        for x in walk(self.body):
+            if x.get("k") == "Path" and x.get("res", {}).get("dk") in ("AssocFn", "Fn") and x["res"].get("def") and x["res"]["def"] not in out:
+                out.append(x["res"]["def"])
+        return out
 
 
 def arm_table(match):
